@@ -134,7 +134,8 @@ def load_battery(path):
         with open(path) as fh:
             b = json.load(fh)
         on, objs, glob = b["on"], b["objs"], b["glob"]
-        lines = ["function __obx(X){ var r = [];"]
+        # an undefined global (slot not allocated) has no observations: its part of the vector is left empty
+        lines = ["function __obx(X){ if (X === undefined) { __emit(undefined); return; } var r = [];"]
         for ob in on:
             lines.append(" try { r.push(['v', %s]); } catch (e) { r.push(['t', __cls(e)]); }" % render_obs(ob))
         lines.append(" __emit(r); }")
@@ -144,7 +145,7 @@ def load_battery(path):
         lines.append(" __emit(r); }")
         flat = [dict(ob, x=x) for x in objs for ob in on] + list(glob)
         call = "".join("__obx(%s);" % x for x in objs) + "__obg();"
-        _BATTERY[path] = (flat, "\n".join(lines), call)
+        _BATTERY[path] = (flat, "\n".join(lines), call, len(on))
     return _BATTERY[path]
 
 
@@ -247,7 +248,7 @@ def outcome_str(out):
 def hist_driver(case, api):
     """case = {id, h: [op...], observe: "all" | "last", battery: path}"""
     from microjs import values as V
-    bat, obs_src, obs_call = load_battery(case["battery"])
+    bat, obs_src, obs_call, n_on = load_battery(case["battery"])
     ctx = api.new_context(time_limit=5.0)
     enc = Enc(V)
     emitted = []
@@ -281,11 +282,14 @@ def hist_driver(case, api):
                 break
             flat = []
             for arr in emitted:
-                flat.extend(arr._elements)
+                flat.extend(arr._elements if arr is not V.UNDEFINED else [None] * n_on)
             if len(flat) != len(bat):
                 raise RuntimeError("battery produced %d results for %d observations" % (len(flat), len(bat)))
             obs = []
             for ob, pair in zip(bat, flat):
+                if pair is None:
+                    obs.append([])
+                    continue
                 tag, val = pair._elements[0], pair._elements[1]
                 if tag == "t":
                     obs.append(["!" + str(val)])
